@@ -278,6 +278,7 @@ impl Server {
             Some(req) => req,
             None => {
                 error!("empty request sent by client {:?}", client);
+                client.finish_failure("empty request: no request type was provided");
                 return;
             }
         };
@@ -431,8 +432,14 @@ impl Server {
             RequestType::CountRequests(_) => count_requests(self, client),
             RequestType::QueryHealthChecks(query) => list_health_checks(self, client, query),
 
-            RequestType::LaunchWorker(_) => {} // not yet implemented, nor used, anywhere
-            RequestType::ReturnListenSockets(_) => {} // This is only implemented by workers,
+            // not yet implemented, nor used, anywhere
+            RequestType::LaunchWorker(_) => {
+                client.finish_failure("LaunchWorker is not implemented by the main process")
+            }
+            // This is only implemented by workers,
+            RequestType::ReturnListenSockets(_) => {
+                client.finish_failure("ReturnListenSockets is only implemented by workers")
+            }
             // Per-(cluster, source-IP) connection-limit runtime hooks. Both
             // the setter and the query are pure worker-side operations
             // (the live counter lives in `SessionManager`, not in the
